@@ -254,11 +254,18 @@ func restSame(a, b table, except ...string) (string, string) {
 }
 
 func approx(got, want val, w int) bool {
+	// a linear map of a vector carries a rounding error proportional to the vector's largest
+	// component, in every component (a rotation moves a coordinate of 2e10 out of the way and leaves
+	// 4e-6 of rounding in a component of 6e3 — in the reference's formula as much as in the library's)
+	big := 0.0
+	for i := 0; i < w; i++ {
+		big = math.Max(big, math.Abs(want[i]))
+	}
 	for i := 0; i < w; i++ {
 		if math.IsNaN(got[i]) || math.IsNaN(want[i]) || math.IsInf(want[i], 0) {
 			return false
 		}
-		if math.Abs(got[i]-want[i]) > 1e-9*(1+math.Abs(want[i])) {
+		if math.Abs(got[i]-want[i]) > 1e-9*(1+math.Abs(want[i]))+1e-14*big {
 			return false
 		}
 	}
